@@ -7,6 +7,13 @@ pub mod rfc;
 #[path = "/verif/spec/rfc_tables.rs"]
 pub mod rfc_tables;
 
+/// public wrappers around the crate-private hook functions (for the native witness finders in /verif/replay)
+pub mod base_hooks {
+    pub fn gen_params(f: u64, p: u16, ws: u64) -> crate::ObjectTransmissionInformation {
+        crate::base::verif_hooks::gen_params(f, p, ws)
+    }
+}
+
 // native replay of a Kani counterexample (concrete playback): the scratch file is written by /verif/lib/kunit.py
 #[cfg(all(kani, cberner_raptorq_verif_playback))]
 #[path = "/verif/.build/playback/pb.rs"]
